@@ -410,6 +410,51 @@ Definition fe_keys (f : fe_field) : res (option (list string)) :=
   | FEExpr ast has_key => bind (extract ast) (fun k => Done (if has_key then Some k else None))
   end.
 
+(* the Logic part of _load_step (181-217): resources or None, class of the logic,
+   "logic is None", keys of switchOn (only when the switch loaded) *)
+Definition load_step_logic (st : step_spec)
+  : res (option (list resource) * oclass * bool * list string) :=
+  match st_ref st, st_switch st with
+  | Some r, _ => let '(rs, c) := load_logic r in Done (rs, c, false, [])
+  | None, Some sw =>
+      bind (load_logic_switch sw) (fun '(rs, c, keys) =>
+        Done (rs, c, false, if oc_is_ok c then keys else []))
+  | None, None => Done (None, COk, true, [])
+  end.
+
+(* skipIf, forEach, inputs, state in this order (255-378): (all prepared?, keys so far) *)
+Definition load_step_fields (st : step_spec) (k0 : list string) : res (bool * list string) :=
+  bind (field_keys (st_skip_if st)) (fun o1 =>
+  match o1 with
+  | None => Done (false, k0)
+  | Some k1 =>
+  bind (fe_keys (st_for_each st)) (fun o2 =>
+  match o2 with
+  | None => Done (false, k0 ++ k1)
+  | Some k2 =>
+  bind (field_keys (st_inputs st)) (fun o3 =>
+  match o3 with
+  | None => Done (false, k0 ++ k1 ++ k2)
+  | Some k3 =>
+  bind (field_keys (st_state st)) (fun o4 =>
+  match o4 with
+  | None => Done (false, k0 ++ k1 ++ k2 ++ k3)
+  | Some k4 => Done (true, k0 ++ k1 ++ k2 ++ k3 ++ k4)
+  end) end) end) end).
+
+Definition is_none (n : option string) : bool := match n with None => true | Some _ => false end.
+
+(* the order check (380-393) *)
+Definition order_check (label : string) (known keys : list string) : res step_out :=
+  let needed := needed_steps keys in
+  let out_of_order := filter (fun n => negb (opt_mem n known)) needed in
+  match out_of_order with
+  | [] => Done (SStep label (somes needed))
+  | _ => if existsb is_none out_of_order
+         then Raised ETypeError                              (* ', '.join(out_of_order_steps) *)
+         else Done (SErr label CPermFail)
+  end.
+
 (* _load_step: (resources or None, the step, needed parent properties) *)
 Definition load_step (st : step_spec) (known : list string)
   : res (option (list resource) * step_out * list string) :=
@@ -417,44 +462,14 @@ Definition load_step (st : step_spec) (known : list string)
   match st_ref st, st_switch st with
   | Some _, Some _ => Done (None, SErr label CPermFail, [])
   | _, _ =>
-      (* resources, class of logic, "logic is None", keys of switchOn *)
-      bind (match st_ref st, st_switch st with
-            | Some r, _ => let '(rs, c) := load_logic r in Done (rs, c, false, [])
-            | None, Some sw =>
-                bind (load_logic_switch sw) (fun '(rs, c, keys) =>
-                  Done (rs, c, false, if oc_is_ok c then keys else []))
-            | None, None => Done (None, COk, true, [])
-            end) (fun '(rs, lc, nologic, k0) =>
+      bind (load_step_logic st) (fun '(rs, lc, nologic, k0) =>
       if String.eqb label "<missing label>" then Done (rs, SErr "missing" CPermFail, needed_parent k0)
       else if negb (oc_is_ok lc) then Done (rs, SErr label lc, needed_parent k0)
       else if nologic then Done (rs, SErr label CPermFail, needed_parent k0)
       else
-      bind (field_keys (st_skip_if st)) (fun o1 =>
-      match o1 with
-      | None => Done (rs, SErr label CPermFail, needed_parent k0)
-      | Some k1 =>
-      bind (fe_keys (st_for_each st)) (fun o2 =>
-      match o2 with
-      | None => Done (rs, SErr label CPermFail, needed_parent (k0 ++ k1))
-      | Some k2 =>
-      bind (field_keys (st_inputs st)) (fun o3 =>
-      match o3 with
-      | None => Done (rs, SErr label CPermFail, needed_parent (k0 ++ k1 ++ k2))
-      | Some k3 =>
-      bind (field_keys (st_state st)) (fun o4 =>
-      match o4 with
-      | None => Done (rs, SErr label CPermFail, needed_parent (k0 ++ k1 ++ k2 ++ k3))
-      | Some k4 =>
-          let keys := k0 ++ k1 ++ k2 ++ k3 ++ k4 in
-          let needed := needed_steps keys in
-          let out_of_order := filter (fun n => negb (opt_mem n known)) needed in
-          match out_of_order with
-          | [] => Done (rs, SStep label (somes needed), needed_parent keys)
-          | _ => if existsb (fun n => match n with None => true | Some _ => false end) out_of_order
-                 then Raised ETypeError                      (* ', '.join(out_of_order_steps) *)
-                 else Done (rs, SErr label CPermFail, needed_parent keys)
-          end
-      end) end) end) end))
+      bind (load_step_fields st k0) (fun '(ok, keys) =>
+      if negb ok then Done (rs, SErr label CPermFail, needed_parent keys)
+      else bind (order_check label known keys) (fun o => Done (rs, o, needed_parent keys))))
   end.
 
 (* the loop of _load_steps *)
